@@ -47,7 +47,7 @@ def build_harness(profile="checked"):
         cmd += ["--config", f'paths=["{REPO}/chess","{REPO}/chess_base"]']
         target = os.path.join(WORK, "harness-target")
         env["CARGO_TARGET_DIR"] = target
-    p = subprocess.run(cmd, cwd=HARNESS, env=env, capture_output=True, text=True)
+    p = subprocess.run(cmd, cwd=HARNESS, env=env, capture_output=True, text=True, stdin=subprocess.DEVNULL)
     if p.returncode != 0:
         log(p.stdout[-3000:]); log(p.stderr[-6000:])
         raise ToolError(f"cargo build of the harness failed (profile {profile})")
@@ -61,7 +61,7 @@ def run_harness(binary, args, timeout=3600, env=None):
     e = dict(os.environ)
     if env:
         e.update(env)
-    p = subprocess.run([binary] + [str(a) for a in args], capture_output=True, text=True, timeout=timeout, env=e)
+    p = subprocess.run([binary] + [str(a) for a in args], capture_output=True, text=True, timeout=timeout, env=e, stdin=subprocess.DEVNULL)
     return p.returncode, p.stdout + p.stderr
 
 
@@ -127,7 +127,7 @@ def run_tlc(module, cfg, env=None, workers=1, xmx="1500m", timeout=1800, extra=N
         e.update({k: str(v) for k, v in env.items()})
     t0 = time.time()
     try:
-        p = subprocess.run(cmd, cwd=SPEC, env=e, capture_output=True, text=True, timeout=timeout)
+        p = subprocess.run(cmd, cwd=SPEC, env=e, capture_output=True, text=True, timeout=timeout, stdin=subprocess.DEVNULL)
         out, rc = p.stdout + p.stderr, p.returncode
     except subprocess.TimeoutExpired as ex:
         out = (ex.stdout or b"").decode(errors="replace") if isinstance(ex.stdout, bytes) else (ex.stdout or "")
